@@ -38,6 +38,9 @@ var registry = []Harness{
 		Quick:    [][]int{{0, 20, 20, 1}, {0, 0, 20, 1}, {0, 20, 19, 1}, {1, 20, 20, 1}, {2, 20, 20, 1}, {3, 20, 20, 1}, {4, 20, 20, 1}, {5, 20, 20, 1}, {1, 20, 20, 3}, {3, 20, 20, 6}},
 		Thorough: [][]int{{0, 20, 20, 1}, {0, 0, 20, 1}, {0, 19, 20, 1}, {0, 21, 20, 1}, {0, 20, 0, 1}, {0, 20, 19, 1}, {0, 20, 21, 1}, {1, 20, 20, 1}, {2, 20, 20, 1}, {3, 20, 20, 1}, {4, 20, 20, 1}, {5, 20, 20, 1}, {1, 20, 20, 3}, {2, 20, 20, 3}, {3, 20, 20, 3}, {4, 20, 20, 3}, {5, 20, 20, 3}, {1, 20, 20, 6}, {3, 20, 20, 6}, {1, 20, 20, 4}, {1, 20, 20, 7}},
 		Bound:    "state: mint(a0,x0) mint(a1,x1) lock(a0->lk,y,until), all amounts symbolic; then ONE operation (param 0: transfer/transferX/mint/burn/lock/newEpoch) with symbolic 20-byte (public transfer: also 0/19/21-byte) from/to free to alias any account, symbolic amount in Z (the epoch of newEpoch: -2^62 <= e < 2^62, it is turned into bytes), symbolic signer set {Alphabet,a0,a1}+stranger; committee size param3 (1; 3 and 6 for Alphabet operations, thorough also 4, 7); unwind 16"},
+	{Prop: "C01", Pkg: "balance", Func: "VerifC09TwoOwners", Link: []string{"netmap", "balance"},
+		Quick: [][]int{{0}},
+		Bound: "the two-owner lock harness of C09 (two owners, one lock each up to the whole balance, one tick): supply = sum of balances afterwards; the forced witnesses with both owners locking everything until the same epoch are replayed on the VM"},
 	{Prop: "C02", Pkg: "balance", Func: "VerifC01Op", Link: []string{"netmap", "balance"},
 		Quick:    [][]int{{0, 20, 20, 1}, {0, 0, 20, 1}, {0, 20, 19, 1}, {1, 20, 20, 1}, {2, 20, 20, 1}, {3, 20, 20, 1}, {4, 20, 20, 1}, {5, 20, 20, 1}, {1, 20, 20, 3}, {3, 20, 20, 6}},
 		Thorough: [][]int{{0, 20, 20, 1}, {0, 0, 20, 1}, {0, 19, 20, 1}, {0, 21, 20, 1}, {0, 20, 0, 1}, {0, 20, 19, 1}, {0, 20, 21, 1}, {1, 20, 20, 1}, {2, 20, 20, 1}, {3, 20, 20, 1}, {4, 20, 20, 1}, {5, 20, 20, 1}, {1, 20, 20, 3}, {2, 20, 20, 3}, {3, 20, 20, 3}, {4, 20, 20, 3}, {5, 20, 20, 3}, {1, 20, 20, 6}, {3, 20, 20, 6}, {1, 20, 20, 4}, {1, 20, 20, 7}},
@@ -45,24 +48,31 @@ var registry = []Harness{
 	{Prop: "C09", Pkg: "balance", Func: "VerifC09Locks", Link: []string{"netmap", "balance"},
 		Quick: [][]int{{0}, {1}},
 		Bound: "mint, two locks of one owner (amounts, until in -3..300 symbolic), optional burn of the first (0..y1), two ticks with symbolic epochs 1..300 (param: delivered directly / through the Netmap fan-out)"},
+	{Prop: "C09", Pkg: "balance", Func: "VerifC09TwoOwners", Link: []string{"netmap", "balance"},
+		Quick: [][]int{{0}, {1}},
+		Bound: "two owners, one lock each (amounts up to the whole balance, until 1..300 symbolic), one tick with a symbolic epoch (param: delivered directly / through the Netmap fan-out); witnesses with both owners locking everything until the same epoch are forced and replayed on the VM"},
 	{Prop: "C08", Pkg: "netmap", Func: "VerifC08Resize", Link: []string{"netmap"},
 		Quick:    [][]int{{10, 3, 1, 6, 0}, {3, 4, 0, 6, 0}, {3, 5, 2, 6, 0}, {2, 3, 1, 6, 0}, {4, 2, 1, 6, 0}, {3, 5, 1, 6, 4}, {2, 4, 2, 6, 3}, {3, 4, 2, 6, 5}},
 		Thorough: [][]int{{10, 3, 1, 12, 0}, {3, 4, 0, 12, 0}, {3, 5, 2, 12, 0}, {2, 3, 1, 12, 0}, {4, 2, 1, 12, 0}, {10, 11, 1, 12, 0}, {10, 12, 2, 12, 0}, {10, 13, 0, 12, 0}, {5, 7, 2, 12, 0}, {5, 9, 3, 12, 0}, {6, 6, 1, 12, 0}, {4, 9, 0, 12, 0}, {2, 1, 3, 12, 0}, {7, 14, 2, 12, 0}, {10, 0, 2, 12, 0}, {3, 5, 1, 12, 4}, {2, 4, 2, 12, 3}, {3, 4, 2, 12, 5}, {10, 12, 1, 12, 11}, {4, 6, 3, 12, 8}, {3, 3, 3, 12, 6}},
 		Unwind: 40,
 		Bound: "count c0 (param 0) set at epoch 0, t0 ticks (param 1), resize to symbolic count 0..param 3 (6 quick, 12 thorough), t1 ticks (param 2, plus one if 0); symbolic queries snapshot(d) d in -1..7, snapshotByEpoch(q), listNodes(q2); one node per published map carrying its epoch; param 4: the epoch whose map is published EMPTY (the node goes offline before that tick; 0: none), before or after the resize and after the ring wrapped"},
 	{Prop: "C06", Pkg: "netmap", Func: "VerifC06Tick", Link: []string{"netmap", "balance", "probe1", "probe2"},
-		Quick: [][]int{{0}, {1}}, Thorough: [][]int{{0}, {1}, {2}, {3}},
-		Bound: "snapshot count param0 (0: the default 10; 1: the published list is the oldest kept), 3 legacy candidates (Online, Maintenance, Offline->removed), 1 structured, subscribers Balance+probe1+probe2 (probe1 subscribed twice), probe2 refuses one symbolic epoch; two newEpoch invocations with symbolic epochs -2..1000 and symbolic Alphabet signature"},
+		Quick: [][]int{{0, 0}, {1, 0}, {0, 1}}, Thorough: [][]int{{0, 0}, {1, 0}, {2, 0}, {3, 0}, {0, 1}, {1, 1}},
+		Bound: "the two probe subscribers subscribe in the order given by param1 (both orders are run: one contradicts the order of the contract hashes), snapshot count param0 (0: the default 10; 1: the published list is the oldest kept), 3 legacy candidates (Online, Maintenance, Offline->removed), 1 structured, subscribers Balance+probe1+probe2 (probe1 subscribed twice), probe2 refuses one symbolic epoch; two newEpoch invocations with symbolic epochs -2..1000 and symbolic Alphabet signature"},
 	{Prop: "C07", Pkg: "netmap", Func: "VerifC07Candidates", Link: []string{"netmap"},
 		Quick: [][]int{{2, 0}, {1, 1}, {1, 2}}, Thorough: [][]int{{3, 0}, {2, 1}, {2, 2}},
 		Bound: "fixture param1 (0: empty; 1/2: n0 held by both lists in different states), then k (param0) consecutive operations, each with symbolic method (addPeer/addPeerIR/addNode/updateState/updateStateIR/deleteNode), symbolic target in the pool {n0,n1}, symbolic state in Z, symbolic Alphabet and node signatures; reference model tracks n0"},
+	{Prop: "C08", Pkg: "netmap", Func: "VerifC08Sequence", Link: []string{"netmap"}, Unwind: 60,
+		Quick:    [][]int{{3, 104, 2, 206, 2, 0, 0, 0}, {12, 204, 3, 106, 1, 0, 0, 0}, {4, 206, 1, 0, 0, 0, 0, 0}},
+		Thorough: [][]int{{3, 104, 2, 206, 2, 0, 0, 0}, {12, 204, 3, 106, 1, 0, 0, 0}, {4, 206, 1, 0, 0, 0, 0, 0}, {2, 113, 1, 112, 1, 0, 0, 0}, {2, 113, 4, 206, 2, 0, 0, 0}, {5, 203, 2, 205, 3, 0, 0, 0}, {11, 103, 2, 212, 2, 0, 0, 0}, {3, 102, 3, 104, 3, 206, 2, 0}},
+		Bound:    "ANY sequence of steps given by the params (n ticks / a resize to a concrete count / a resize to a symbolic count 1..m; up to three resizes, up to 20 epochs) from the default count 10, against a per-epoch reference model; a resize the contract refuses (including one that faults) must change nothing; symbolic queries snapshot(d), snapshotByEpoch(q), listNodes(q2) at the end"},
 	{Prop: "C17", Unwind: 64, Pkg: "neofs", Func: "VerifC17Ballots", Link: []string{"neofs", "processing"},
-		Quick:    [][]int{{0, 1, 3}, {0, 3, 4}, {0, 4, 4}, {1, 4, 4}, {2, 4, 3}, {3, 4, 3}, {0, 2, 4}, {1, 2, 4}, {2, 2, 4}, {3, 2, 4}},
-		Thorough: [][]int{{0, 1, 4}, {0, 2, 4}, {0, 3, 5}, {0, 4, 5}, {0, 5, 5}, {0, 6, 5}, {0, 7, 5}, {1, 2, 4}, {1, 3, 4}, {1, 4, 5}, {1, 7, 5}, {2, 2, 4}, {2, 3, 4}, {2, 4, 4}, {2, 7, 5}, {3, 2, 4}, {3, 3, 4}, {3, 4, 4}, {3, 7, 5}},
-		Bound:    "NeoFS contract without Notary, n stored Alphabet keys (param 1), k invocations (param 2) of one method (param 0: setConfig/cheque/alphabetUpdate/innerRingCandidateRemove), each by a symbolic caller (member 0..n-1 or a stranger) for one of two decision ids after a symbolic gap of 0..25 blocks; reference model: live-ballot reading (DESIGN.md C17); n = 2 with k = 4 is the smallest setting in which one ballot stays pending while another fires and is then voted for again; after a candidate removal fired the history goes on with the other candidate"},
+		Quick:    [][]int{{0, 1, 3, 0}, {0, 3, 4, 0}, {0, 4, 4, 0}, {1, 4, 4, 0}, {2, 4, 3, 0}, {3, 4, 3, 0}, {0, 2, 4, 0}, {1, 2, 4, 0}, {2, 2, 4, 0}, {3, 2, 4, 0}, {3, 2, 3, 2}, {3, 2, 4, 2}},
+		Thorough: [][]int{{0, 1, 4, 0}, {0, 2, 4, 0}, {0, 3, 5, 0}, {0, 4, 5, 0}, {0, 5, 5, 0}, {0, 6, 5, 0}, {0, 7, 5, 0}, {1, 2, 4, 0}, {1, 3, 4, 0}, {1, 4, 5, 0}, {1, 7, 5, 0}, {2, 2, 4, 0}, {2, 3, 4, 0}, {2, 4, 4, 0}, {2, 7, 5, 0}, {3, 2, 4, 0}, {3, 3, 4, 0}, {3, 4, 4, 0}, {3, 7, 5, 0}},
+		Bound:    "NeoFS contract without Notary, n stored Alphabet keys (param 1), k invocations (param 2) of one method (param 0: setConfig/cheque/alphabetUpdate/innerRingCandidateRemove), each by a symbolic caller (member 0..n-1 or a stranger) for one of two decision ids after a symbolic gap of 0..25 blocks; reference model: live-ballot reading (DESIGN.md C17); n = 2 with k = 4 is the smallest setting in which one ballot stays pending while another fires and is then voted for again; after a candidate removal fired the history goes on with the other candidate; param 3 = r: candidate B registers only before step r, so a removal round can finish for a key that is not a candidate yet"},
 	{Prop: "C19", Unwind: 64, Pkg: "neofs", Func: "VerifC17Ballots", Link: []string{"neofs", "processing"},
-		Quick:    [][]int{{1, 2, 4}},
-		Thorough: [][]int{{1, 2, 4}, {1, 3, 4}, {1, 4, 5}},
+		Quick:    [][]int{{1, 2, 4, 0}},
+		Thorough: [][]int{{1, 2, 4, 0}, {1, 3, 4, 0}, {1, 4, 5, 0}},
 		Bound:    "the ballot harness of C17 for the cheque method (param 0 = 1): n stored Alphabet keys (param 1), k invocations (param 2) for one of two cheque ids; after every invocation the GAS balances of the payee and of the contract equal 7 GAS per cheque the model says was approved: a cheque is paid exactly once"},
 	{Prop: "C14", Pkg: "container", Func: "VerifC14Roster", Link: []string{"nns", "netmap", "balance", "neofsid", "container"},
 		Quick: [][]int{{2, 1, 1}, {0, 0, 1}, {1, 0, 2}}, Thorough: [][]int{{2, 1, 1}, {0, 0, 1}, {1, 0, 2}, {3, 2, 3}, {1, 3, 0}},
